@@ -89,5 +89,12 @@ impl EventSource for SocketWriteVectored<'_> {
         if io_data.io_flag.load(Ordering::Acquire) != 0 {
             io_data.fast_schedule();
         }
+
+        // the timer may have fired before the coroutine was stored, then nobody
+        // else is going to report the timeout
+        #[cfg(feature = "io_timeout")]
+        if self.timeout.is_some() {
+            io_data.check_timer_fired();
+        }
     }
 }
